@@ -4,6 +4,7 @@ import CtrlVerif.Driver.Shape
 import CtrlVerif.Driver.Config
 import CtrlVerif.Driver.Index
 import CtrlVerif.Driver.FRD
+import CtrlVerif.Driver.Dt
 
 namespace CtrlVerif.Driver
 
@@ -16,6 +17,7 @@ def dispatch (line : String) : String :=
   | "c19" :: rest => Config.handle rest
   | "idx" :: rest => Index.handle rest
   | "frd" :: rest => FRD.handle rest
+  | "dt" :: rest => DtFam.handle rest
   | f :: _ => s!"bad-op family:{f}"
 
 end CtrlVerif.Driver
